@@ -447,3 +447,104 @@ func init() {
 		Replay: replayFn(c18Scenarios),
 	})
 }
+
+// A pending deadline is removed by another goroutine while the call it would have
+// interrupted is blocked; the peer answers after the original deadline. The call
+// completes normally, the setter returns at once, the connection stays open.
+func c18ClearSetup(k connCfg, dir string, both bool) func(c *fw.Ctx, name string) explore.Setup {
+	return func(c *fw.Ctx, name string) explore.Setup {
+		return func(w *vs.World) func(bool) {
+			p := vpipe.New()
+			if dir == "write" {
+				p.Window = 8
+			}
+			var callErr error
+			var n int
+			var callDone, setDone bool
+			var setReturned int64
+			w.GoHarness("main", true, func() {
+				conn := mkConn(p, k)
+				nc := websocket.NetConn(vctx.Background(), conn, websocket.MessageBinary)
+				at := vctx.Epoch.Add(time.Duration(w.Now) + time.Second)
+				if dir == "read" {
+					nc.SetReadDeadline(at)
+				} else {
+					nc.SetWriteDeadline(at)
+				}
+				w.GoHarness("caller", true, func() {
+					if dir == "read" {
+						var b [8]byte
+						n, callErr = nc.Read(b[:])
+					} else {
+						n, callErr = nc.Write(fill(0xAB, 100))
+					}
+					callDone = true
+				})
+				w.GoHarness("setter", true, func() {
+					vtime.Sleep(500 * time.Millisecond)
+					switch {
+					case both:
+						nc.SetDeadline(time.Time{})
+					case dir == "read":
+						nc.SetReadDeadline(time.Time{})
+					default:
+						nc.SetWriteDeadline(time.Time{})
+					}
+					setReturned = w.Now
+					setDone = true
+				})
+				w.GoHarness("peer", false, func() {
+					vtime.Sleep(2 * time.Second)
+					if dir == "read" {
+						p.Send(peerData(k, frame.OpBinary, true, []byte{1, 2, 3}))
+					} else {
+						p.SetWindow(0)
+					}
+				})
+			})
+			return func(complete bool) {
+				if !complete {
+					return
+				}
+				role := k.String()
+				locus := dir + "/" + role
+				if w.Panic != "" {
+					violate(c, w, name, "C18/panic/"+role, w.Panic)
+					return
+				}
+				c.OutcomeStr(fmt.Sprintf("%s|call=%v/%v|set=%v@%dms|closed=%v", name, callDone, callErr != nil, setDone, setReturned/1e6, p.Closed))
+				switch {
+				case !setDone || setReturned > int64(900*time.Millisecond):
+					violate(c, w, name, "C18/deadline-reset-blocks/"+locus, fmt.Sprintf("removing the %s deadline while a %s was blocked did not return promptly (returned=%v at %v)", dir, dir, setDone, time.Duration(setReturned)))
+				case !callDone:
+					violate(c, w, name, "C18/call-never-returns/after-deadline-removed/"+locus, fmt.Sprintf("the %s never returned although the peer answered at 2 s: stuck %v", dir, stuckTasks(w)))
+				case callErr != nil || p.Closed:
+					violate(c, w, name, "C18/deadline-error-without-deadline/"+locus, fmt.Sprintf("the %s deadline (1 s) was removed at 0.5 s while the call was blocked; the peer answered at 2 s; the call returned (%d, %v), connection closed=%v", dir, n, callErr, p.Closed))
+				}
+			}
+		}
+	}
+}
+
+func c18ClearScenarios(tier string) []scenario {
+	var scs []scenario
+	cfg := explore.Config{P: 1, T: 1, Horizon: 60e9}
+	if tier == "thorough" {
+		cfg = explore.Config{P: 2, T: 2, Horizon: 60e9}
+	}
+	for _, k := range []connCfg{{Client: false}, {Client: true}} {
+		for _, dir := range []string{"read", "write"} {
+			for _, both := range []bool{false, true} {
+				scs = append(scs, scenario{Name: fmt.Sprintf("clear/%s/both=%v/%s", dir, both, k.String()), Cfg: cfg, Setup: c18ClearSetup(k, dir, both)})
+			}
+		}
+	}
+	return scs
+}
+
+func init() {
+	fw.Register(fw.Part{Prop: "C18", Name: "s.clear",
+		Units:  func(tier string) []fw.Unit { return scenarioUnits(c18ClearScenarios(tier)) },
+		Replay: replayFn(c18ClearScenarios),
+	})
+}
